@@ -2,6 +2,7 @@
 import random
 
 import model
+import monitors
 import scenario as S
 from sim import run_scenario
 
@@ -26,6 +27,20 @@ def run(tier, seed, drv):
     scns = SC.corpus_scenarios() + [dict(s, n_ticks=3) for s in shapes(rng)]
     for _ in range(40 if tier == "quick" else 400):
         scns.append(S.gen_nested(rng, depth=rng.randrange(1, 4), callbacks=True, max_n=7 if tier == "quick" else 9))
+    # interrupts on devices that never request a callback ("quiet") or re-request one at every
+    # update (periodic), arriving between ticks and in the middle of a tick (processing cost)
+    from .c07 import dev
+    P = 100_000_000
+    for off in (7, 30_000_007, 100_000_007, 100_000_000 + 25_000_000, 160_000_000, 230_000_000):
+        scns.append({"components": [{"name": "O", "kind": "sys", "inputs": {}, "expose": {}, "components": [
+            {"name": "S", "kind": "sys", "inputs": {}, "expose": {}, "components": [
+                dev("A", cb={"kind": "period", "p": P}, cost=10_000_000), dev("B", {"i": ["A", "o"]}, cost=10_000_000), dev("C", cost=5_000_000)]}]}],
+            "n_ticks": 4, "stims": [{"real": off, "comp": "C"}]})
+        scns.append({"components": [dev("src", cb={"kind": "period", "p": P}, cost=10_000_000),
+                                    {"name": "sys", "kind": "sys", "inputs": {"x": ["src", "o"]}, "expose": {"y": ["in1", "o"]},
+                                     "components": [dev("in1", {"i": ["external", "x"]}, cost=10_000_000), dev("quiet", cost=5_000_000)]},
+                                    dev("sink", {"i": ["sys", "y"]}, cost=10_000_000)],
+                     "n_ticks": 4, "stims": [{"real": off, "comp": "quiet"}]})
     for i, scn in enumerate(scns):
         if not S.systems(scn):
             continue
@@ -33,6 +48,9 @@ def run(tier, seed, drv):
         SC.stats_into(res, scn)
         for b in ("sync", "held"):
             sd = rng.randrange(1 << 30)
+            has_cost = any(d["beh"].get("cost") for d in S.devices(scn))
+            if has_cost and b == "held":
+                continue
             rn = run_scenario(scn, bus=b, seed=sd)
             rf = run_scenario(flat, bus=b, seed=sd)
             res.case(SC.scn_key(scn) + b, nontrivial=len(rn["trace"].of("update")) > len(S.devices(scn)),
@@ -45,8 +63,17 @@ def run(tier, seed, drv):
                     ok = False
             if not ok:
                 continue
-            SC.check_run(scn, rn, drv, res, monitors_on=("inputs_latest", "callbacks", "tick_times"), corr=("sim", "ticker"), case_extra=case)
-            SC.check_run(flat, rf, drv, res, monitors_on=(), corr=("sim",), case_extra={"scenario": flat, "bus": b})
+            SC.check_run(scn, rn, drv, res, monitors_on=("inputs_latest", "callbacks", "tick_times") + (("interrupts",) if scn.get("stims") else ()),
+                         corr=("ticker",) if has_cost else ("sim", "ticker"), case_extra=case)
+            SC.check_run(flat, rf, drv, res, monitors_on=(), corr=() if has_cost else ("sim",), case_extra={"scenario": flat, "bus": b})
+            # an interrupt that arrives while a tick is in progress may be served by that very tick in one
+            # configuration and by a tick of its own in the other (the devices are updated in a different
+            # order inside the tick): transparency is claimed for stimuli applied between ticks
+            midtick = any(monitors.phase_of(r_["trace"], monitors.master_tid(r_), e) != "between-ticks"
+                          for r_ in (rn, rf) for e in r_["trace"].of("raise") if e.get("ok"))
+            if midtick:
+                res.count("mid-tick-interrupt (served-check only)")
+                continue
             oa, ob = model.observations(rn["trace"]), model.observations(rf["trace"])
             for d in sorted(set(oa) | set(ob)):
                 if oa.get(d, []) != ob.get(d, []):
